@@ -183,6 +183,8 @@ impl LibCase {
                 "untitled" => format!("plain {}\n", name),
                 // the title is the note's own name: a refreshed link text then equals the url
                 "named" => format!("# {}\n", k.rsplit('/').next().unwrap()),
+                // the first block is not a heading: the note has no title although a heading follows
+                "late-title" => format!("remark {}\n\n# late {}\n", name, name),
                 "back" => format!("# note {}\n\n[o]({})\n\nand [o]({}) inline\n", name, rel_url(&dir_of(k), &self.owner), rel_url(&dir_of(k), &self.owner)),
                 "linked-title" => format!("# note {} [x]({})\n", name, rel_url(&dir_of(k), "2")),
                 _ => panic!("others {}", self.others),
@@ -294,9 +296,9 @@ pub fn enumerate_level(level: u8, exts: &[&str], emit: &mut dyn FnMut(&LibCase))
             for p in PLACEMENTS {
                 for k in KINDS {
                     for u in &urls {
-                        for others in ["titled", "untitled", "named"] {
+                        for others in ["titled", "untitled", "named", "late-title"] {
                             for title in ["plain", "none"] {
-                                if (!deep && title == "none" && others == "untitled") || (others == "named" && title == "none") {
+                                if (!deep && title == "none" && others == "untitled") || ((others == "named" || others == "late-title") && title == "none") {
                                     continue;
                                 }
                                 emit(&LibCase { owner: owner.to_string(), title: title.into(), others: others.into(), ext: ext.to_string(), blocks: vec![(p.to_string(), k.to_string(), u.clone())] });
